@@ -28,7 +28,7 @@ ASSUMPTIONS = ["exception classes are compared by subclass relation (e.g. IndexE
                "assigned values of another dtype are small non-negative integers so the cast is defined",
                "a result that is a memmap or based on one is reported without touching its memory"]
 EXHAUSTIVE = None
-MUST_HIT = ['idx:mask', 'idx:fullmask', 'idx:intarr', 'idx:none', 'idx:ell', 'idx:int-out-of-range', 'failed-write', 'failed-read',
+MUST_HIT = ['idx:npint', 'idx:mask', 'idx:fullmask', 'idx:intarr', 'idx:none', 'idx:ell', 'idx:int-out-of-range', 'failed-write', 'failed-read',
             'empty-array', 'ctx:none', 'ctx:open', 'ctx:nested', 'write:otherdt', 'write:row', 'idx:badtype', 'idx:too-many',
             'write:mask']
 
@@ -37,7 +37,7 @@ MUST_HIT = ['idx:mask', 'idx:fullmask', 'idx:intarr', 'idx:none', 'idx:ell', 'id
 def st_comp(draw, n):
     k = draw(st.sampled_from(['int', 'int', 'slice', 'slice', 'ell', 'full', 'none', 'intarr', 'mask', 'badtype']))
     if k == 'int':
-        return {'t': 'int', 'v': draw(st.integers(-n - 2, n + 1))}
+        return {'t': draw(st.sampled_from(['int', 'int', 'npint'])), 'v': draw(st.integers(-n - 2, n + 1))}
     if k == 'slice':
         b = st.one_of(st.none(), st.integers(-n - 2, n + 2))
         return {'t': 'slice', 'v': [draw(b), draw(b), draw(st.one_of(st.none(), st.sampled_from([1, 2, -1, -2, 3])))]}
@@ -117,7 +117,9 @@ def idx_classes(ix, shape, out):
         out.cls('idx:intarr')
     elif t in ('str', 'float', 'dict'):
         out.cls('idx:badtype')
-    elif t == 'int':
+    elif t in ('int', 'npint'):
+        if t == 'npint':
+            out.cls('idx:npint')
         if not -shape[0] <= ix['v'] < shape[0]:
             out.cls('idx:int-out-of-range')
     else:
@@ -310,7 +312,7 @@ def execute(ctx, spec):
 
 def fixed_specs():
     """A small deterministic grid so every index class occurs for every rank."""
-    comps = [{'t': 'int', 'v': -1}, {'t': 'int', 'v': 9}, {'t': 'slice', 'v': [None, None, -1]}, {'t': 'slice', 'v': [5, 1, None]},
+    comps = [{'t': 'int', 'v': -1}, {'t': 'int', 'v': 9}, {'t': 'npint', 'v': 1}, {'t': 'slice', 'v': [None, None, -1]}, {'t': 'slice', 'v': [5, 1, None]},
              {'t': 'ell'}, {'t': 'none'}, {'t': 'intarr', 'v': [0, 0, -1]}, {'t': 'intlist', 'v': [1, 7]}, {'t': 'mask', 'v': [True, False, True]},
              {'t': 'mask', 'v': [True, False]}, {'t': 'str', 'v': 'a'}, {'t': 'float', 'v': 1.0}, {'t': 'dict'},
              {'t': 'fullmask', 's': 3, 'wrong': False}, {'t': 'fullmask', 's': 3, 'wrong': True}]
